@@ -132,3 +132,41 @@ def roms_conf(d: Path, forcing_pattern, start, stop, dt, release_rows, outvars=(
     rel.update(release_extra or {})
     return world.base_config(start, stop, dt, g, f, rel, out, tracker=tracker, state=state, ibm=ibm,
                              reference=reference, reversed_=reversed_)
+
+
+def run_config_file(path, rng=None, after_step=None):
+    """configure(file) -> Model -> the same loop as main(); optionally replaces the tracker's random generator."""
+    from ladim.configure import configure
+    from ladim.model import Model
+
+    try:
+        config = configure(str(path))
+        model = Model(config)
+        if rng is not None:
+            model.tracker.rng = rng
+        for k in range(model.timer.Nsteps):
+            model.update()
+            if after_step is not None:
+                after_step(model, k)
+        model.finish()
+    except SystemExit as e:
+        raise RunFailed("SystemExit", repr(e.code)) from e
+    except util.HarnessError:
+        raise
+    except Exception as e:
+        raise RunFailed(type(e).__name__, str(e)[:300]) from e
+    return model, config
+
+
+def run_main_file(path) -> None:
+    """Run ladim.main.main on an existing configuration file."""
+    from ladim.main import main
+
+    try:
+        main(str(path), loglevel=60)
+    except SystemExit as e:
+        raise RunFailed("SystemExit", repr(e.code)) from e
+    except util.HarnessError:
+        raise
+    except Exception as e:
+        raise RunFailed(type(e).__name__, str(e)[:300]) from e
